@@ -428,8 +428,15 @@ impl SubCheck for Filter {
 			}
 		});
 		let mut svc = layer.layer(inner);
-		let rt = tokio::runtime::Builder::new_current_thread().build().unwrap();
-		let resp = rt.block_on(async { svc.call(req).await });
+		// the layer and the inner service never wait for anything: one poll completes the call
+		let fut = svc.call(req);
+		let resp = match futures_util::FutureExt::now_or_never(fut) {
+			Some(r) => r,
+			None => {
+				obs.fail("c14/service-did-not-complete", "the filtered service returned Pending".to_string());
+				return;
+			}
+		};
 		let status = match resp {
 			Ok(r) => r.status().as_u16(),
 			Err(e) => {
@@ -541,8 +548,7 @@ pub fn host_bytes_oracle(allow: &[&str], host: &[u8]) -> Option<String> {
 		}
 	});
 	let mut svc = layer.layer(inner);
-	let rt = tokio::runtime::Builder::new_current_thread().build().unwrap();
-	let _ = rt.block_on(async { svc.call(req).await });
+	let _ = futures_util::FutureExt::now_or_never(svc.call(req));
 	if called.load(Ordering::SeqCst) > 0 {
 		let a = std::str::from_utf8(host).ok().and_then(|h| ref_parse(h).or_else(|| ref_parse_lenient(h)));
 		match a {
